@@ -180,12 +180,43 @@ def run(tier, seed, replay=None):
             lmeta.append({"local_correspondence": kind_, "case": j})
         except Exception as ex:
             V.fail("local correspondence: %s raises %s" % (kind_, type(ex).__name__), {"kind": kind_, "exc": str(ex)[:200]}, failing_input=False)
+    # whole-train composition, as amen_solve composes the helpers (backward recursions from the right end, forward ones from the left end, the local
+    # product and 'br,bmB,BR->rmR' at position k) on integer trains with b := A @ x: Model/Local.v check_chain evaluates phiF / phiB / phibF / phibB /
+    # local_product / local_rhs on the same cores; and the conclusion of theorem C12_product_solution_stationary is read off the implementation:
+    # local_product(x_k) == local right-hand side, exactly
+    n_chain = 0
+    for j in range(10 if tier == "quick" else 100):
+        d_ = rng_l.choice([2, 3, 3, 4]); k_ = rng_l.randrange(d_); Ns = [rng_l.choice([1, 2, 3]) for _ in range(d_)]
+        rx = [1] + [rng_l.choice([1, 2]) for _ in range(d_ - 1)] + [1]; rA = [1] + [rng_l.choice([1, 2]) for _ in range(d_ - 1)] + [1]
+        try:
+            xc = [ia((rx[i], Ns[i], rx[i + 1])) for i in range(d_)]; Ac = [ia((rA[i], Ns[i], Ns[i], rA[i + 1])) for i in range(d_)]
+            xt, At = torchtt.TT([T_(c) for c in xc]), torchtt.TT([T_(c) for c in Ac])
+            bt = At @ xt; bc = [c.numpy() for c in bt.cores]
+            PhA, Phb = [None] * (d_ + 1), [None] * (d_ + 1)
+            PhA[0] = torch.ones((1, 1, 1), dtype=torch.float64); PhA[d_] = torch.ones((1, 1, 1), dtype=torch.float64)
+            Phb[0] = torch.ones((1, 1), dtype=torch.float64); Phb[d_] = torch.ones((1, 1), dtype=torch.float64)
+            for i in range(k_):
+                PhA[i + 1] = SV._compute_phi_fwd_A(PhA[i], T_(xc[i]), T_(Ac[i]), T_(xc[i])); Phb[i + 1] = SV._compute_phi_fwd_rhs(Phb[i], T_(bc[i]), T_(xc[i]))
+            for i in range(d_ - 1, k_, -1):
+                PhA[i] = SV._compute_phi_bck_A(PhA[i + 1], T_(xc[i]), T_(Ac[i]), T_(xc[i])); Phb[i] = SV._compute_phi_bck_rhs(Phb[i + 1], T_(bc[i]), T_(xc[i]))
+            lp = SV._local_product(PhA[k_ + 1], PhA[k_], T_(Ac[k_]), T_(xc[k_]), list(xc[k_].shape))
+            rhs_ = torch.einsum('br,bmB,BR->rmR', Phb[k_], T_(bc[k_]), Phb[k_ + 1])
+            dsc = {"local_correspondence": "chain", "case": len(lcases), "d": d_, "k": k_, "N": Ns, "rx": rx, "rA": rA}
+            if not torch.equal(lp.reshape(-1), rhs_.reshape(-1)):
+                V.fail("stationarity: with b = A @ x (integer cores) the local product applied to the k-th core of x differs from the local right-hand side", dict(dsc, lp=lp.reshape(-1).tolist()[:20], rhs=rhs_.reshape(-1).tolist()[:20]))
+            l3 = lambda cs: "[" + ";".join(o3(c) for c in cs) + "]"; l4 = lambda cs: "[" + ";".join(o4(c) for c in cs) + "]"
+            lcases.append("[check_chain (R:=Z) %s %s %s %s %s %s %s %s %s %s %s]" % (l3(xc[:k_]), l3(xc[k_ + 1:]), l4(Ac[:k_]), l4(Ac[k_ + 1:]), o4(Ac[k_]), o3(xc[k_]),
+                          l3(bc[:k_]), l3(bc[k_ + 1:]), o3(bc[k_]), zl(lp.numpy()), zl(rhs_.numpy())))
+            lmeta.append(dsc); n_chain += 1
+        except Exception as ex:
+            V.fail("local correspondence: chain raises %s" % type(ex).__name__, {"kind": "chain", "exc": str(ex)[:200]}, failing_input=False)
+    dist["whole-train interface composition + stationarity (exact)"] = n_chain
     n_local = 0
     if ok_make and lcases:
         try:
             codes = coqrun.eval_nat_lists("C12_local", "From TT Require Import RingSig Instances Core Local.", "", lcases, shard=60)
             for dsc, c in zip(lmeta, codes):
-                if c != [0]: V.fail("correspondence(model/impl): %s of torchtt/solvers.py differs from Model/Local.v" % dsc["local_correspondence"], dict(dsc, model_code=c, expr=lcases[dsc["case"]][:1500]))
+                if c != [0]: V.fail("correspondence(model/impl): %s of torchtt/solvers.py differs from Model/Local.v" % dsc["local_correspondence"], dict(dsc, model_code=c, expr=lcases[lmeta.index(dsc)][:1500]))
                 else: n_local += 1
         except Exception as ex:
             V.fail("local correspondence: the model could not be evaluated", {"exc": str(ex)[:300]}, failing_input=False)
